@@ -152,7 +152,10 @@ def run_check(pid, tier, seed, replay=None):
             "evaluations": evaluations,
             "distinct": len(hashes),
             "distinct_nontrivial": len(nontriv),
-            "rule": META["rule"],
+            "rule": META["rule"] + (" Shared workload slices (counted in monitor_counters where a monitor has its own counter): the same "
+                                    "object used twice and look-alike requests back to back in one process; beyond-hand-size profiles "
+                                    "(8-12 candidates, 30-80 ballots); magnitudes 10^-20..10^18 with near-ties one unit apart; "
+                                    "non-default options and argument types where the property covers them."),
             "samples": samples,
             "monitor_counters": dict(sorted(counters.items())),
             "known_findings_reobserved": {k: fail_counts.get(k, 0) for k in sorted(known_seen)},
